@@ -47,8 +47,26 @@ def unit(v):
 def gen_frame(rng):
     s = rng.choice([1e-6, 1e-3, 1.0, 1.0, 50.0, 1e6])
     a = rv(rng, s)
-    cls = rng.choice(["skew", "skew", "skew", "near", "parallel", "zero_a", "zero_b", "tiny", "short_b", "long_near"])
-    if cls == "skew":
+    cls = rng.choice(["skew", "skew", "skew", "near", "parallel", "zero_a", "zero_b", "tiny", "short_b", "long_near", "axes", "axes", "halfturn"])
+    if cls == "axes":
+        # frames made of signed coordinate axes: quarter and half turns of the world frame, exactly
+        ax = [[1.0, 0.0, 0.0], [0.0, 1.0, 0.0], [0.0, 0.0, 1.0]]
+        i, j = rng.sample(range(3), 2)
+        a = [x * rng.choice([-1, 1]) * s for x in ax[i]]
+        b = [x * rng.choice([-1, 1]) * rng.choice([1.0, 3.0]) + 0.25 * y for x, y in zip(ax[j], a)]
+    elif cls == "halfturn":
+        # within 1e-6 .. 1e-10 rad of a half turn of the world frame about a random axis (a coordinate system flipped over)
+        k = unit(rv(rng))
+        eps = rng.choice([1e-6, 1e-8, 1e-9, 1e-10, 0.0])
+        th = math.pi - eps
+        def rot(v):
+            kv = sum(x * y for x, y in zip(k, v))
+            cr = [k[1] * v[2] - k[2] * v[1], k[2] * v[0] - k[0] * v[2], k[0] * v[1] - k[1] * v[0]]
+            return [v[i] * math.cos(th) + cr[i] * math.sin(th) + k[i] * kv * (1 - math.cos(th)) for i in range(3)]
+        ax = [[1.0, 0.0, 0.0], [0.0, 1.0, 0.0], [0.0, 0.0, 1.0]]
+        a = [x * s for x in rot(ax[0])]
+        b = [x + 0.3 * y for x, y in zip(rot(ax[1]), rot(ax[0]))]
+    elif cls == "skew":
         b = rv(rng, rng.choice([1e-3, 1.0, 1e3]))
     elif cls == "near":
         eps = rng.choice([1e-3, 1e-6, 1e-9, 1e-12])
@@ -155,6 +173,14 @@ def corpus():
     yield {"k": "c19.svd3", "pts": pts, "w": [2.0] * 4, "q": [0.5, 0.5, 0.5], "tol": 1e-6, "cls": "corpus"}
     yield {"k": "c19.svd3", "pts": pts, "w": None, "q": [0.5, 0.5, 0.5], "tol": 1e-6, "cls": "corpus"}
     yield {"k": "c19.frame", "kind": "xy", "a": [1.0, 0.0, 0.0], "b": [2.0, 0.0, 0.0], "o": None, "cls": "parallel"}
+    # every frame made of signed coordinate axes, through every constructor (the half-turns about y were returned as the identity:
+    # fixed b21f4aa)
+    ax = [[1.0, 0.0, 0.0], [-1.0, 0.0, 0.0], [0.0, 1.0, 0.0], [0.0, -1.0, 0.0], [0.0, 0.0, 1.0], [0.0, 0.0, -1.0]]
+    for kind in ("xy", "xz", "yz", "yx", "zx", "zy"):
+        for a in ax:
+            for b in ax:
+                if abs(sum(x * y for x, y in zip(a, b))) < 0.5:
+                    yield {"k": "c19.frame", "kind": kind, "a": list(a), "b": list(b), "o": None, "cls": "axes"}
 
 
 def generate(rng, tier):
